@@ -25,8 +25,14 @@ def load_known():
     """
     findings = {}
     fixed = []
+    lines = []
     if os.path.exists(KNOWN):
-        for ln in open(KNOWN):
+        lines += list(open(KNOWN))
+    extra = os.environ.get("VERIF_KNOWN_EXTRA")
+    if extra and os.path.exists(extra):
+        lines += list(open(extra))
+    if lines:
+        for ln in lines:
             ln = ln.strip()
             if not ln or ln.startswith("#"):
                 continue
